@@ -5,8 +5,13 @@ from ..engine import in_progress
 from ..ledger import HUMAN
 from ..pair import PairExec, compare_pair
 
+# read-only commands, and commands that end without doing anything but make the wrapper take its implicit human
+# checkpoint first (stash list / show run the stash pre-hook, a commit that is abandoned for its empty message or is a
+# dry run has already run the pre-commit checkpoint)
 NOOPS = [["status", "--porcelain"], ["log", "--oneline", "-3"], ["diff", "--stat"], ["rev-parse", "HEAD"],
-         ["branch", "-a"], ["stash", "list"], ["ls-files"], ["show", "--stat", "--format=%s", "HEAD"]]
+         ["branch", "-a"], ["stash", "list"], ["ls-files"], ["show", "--stat", "--format=%s", "HEAD"],
+         ["stash", "list"], ["stash", "show"], ["commit", "-q", "-a", "-m", ""], ["commit", "-q", "-m", ""],
+         ["commit", "--dry-run", "-a"], ["stash", "list"]]
 
 
 class C14(C02):
@@ -19,7 +24,8 @@ class C14(C02):
             "worlds: as is, and with redundant events inserted at drawn places in the second world only - the same AI "
             "checkpoint delivered twice, one agent edit reported in two consecutive checkpoints of the same session "
             "(intermediate content = a subset of its hunks), an extra human checkpoint after a human edit, read-only git "
-            "commands (status, log, diff --stat, rev-parse, branch, stash list, ls-files, show) through the wrapper; the "
+            "commands (status, log, diff --stat, rev-parse, branch, stash list / show, ls-files, show) and commits abandoned for an "
+            "empty message or run with --dry-run (each takes the wrapper's implicit human checkpoint and changes nothing) through the wrapper; the "
             "attestation sections of corresponding notes and blame --json of every file must be equal. distinct = digest "
             "of family x ops x perturbation kinds; non-trivial = AI line observed and at least one perturbation applied")
     assumptions = ["prompt metrics (additions/deletions counters) are not compared"]
